@@ -21,6 +21,16 @@ CHECKS = {
    text="Theorems: NewFileDisk on an image of any prior length (or none) yields exactly n blocks with retained bytes preserved and new bytes zero; after any history, Close and reopen with any size, every later history behaves as the register array holding the last values written (zeros beyond the old size); and for ANY method body accepted by the proved checker `surfaces`, every path on which a system call fails ends in a panic or returns the error (all inputs, all fault sequences, loops unbounded). Per run the checker is evaluated by the kernel on the skeletons regenerated from machine/disk/file.go, the bodies the open model mirrors are compared, reopen histories run on the real FileDisk against the extracted model, and each (scenario, failing syscall, errno, occurrence) is executed under strace injection plus closed-descriptor and /dev/full cases.",
    note="Trusts kernel/tmpfs, strace injection, srcextract's skeleton extraction; durability after power loss rests on the fsync contract (not producible here); short transfer counts without error are outside the property's fault catalogue. Model reflects /repo after the fix: commit for the byte/blocks size comparison in NewFileDisk.",
    ref="DESIGN.md §5 C11"),
+ "C12": dict(
+   technique="Coq refinement proof (MemFs mirror refines the reference model on every valid history, by simulation) + theorems about the reference model + per-run vm_compute obligations on regenerated bodies + three-way extracted-model differential run (MemFs, DirFs, wrappers)",
+   text="Theorems over all valid histories: the mirror of mem.go returns exactly the reference model's results; the reference model gives fresh independent descriptors, Create fails iff the name exists and then changes nothing, links share the inode, Delete leaves inodes and descriptors alone, ReadAt returns exactly the existing bytes of the range, List is exactly the set of names, AtomicCreate installs exactly the data and touches no other name; the model invariant holds in every reachable state. Tied to the code by the frozen bodies of mem.go and the package wrappers (kernel-checked per run) and by generated valid histories (with client-side slice mutation) executed on the real MemFs, the real DirFs and through the wrappers against the extracted models.",
+   note="DirFs has no Coq model (the kernel is its implementation): it is tied to the reference model by the differential run only. Aliasing of slices is observable only on the Go side. Names are drawn from a pool of simple names (no path separators), as the property states. Model reflects /repo after the fix: commit giving MemFs a descriptor table.",
+   ref="DESIGN.md §5 C12"),
+ "C14": dict(
+   technique="Coq proof (MemFs as instance of the single-lock linearizability theorem; transfer to the reference model along valid linearizations; two-operation corollaries) + verified sound-and-complete checker for recorded histories + per-run lock-shape obligations + race detector",
+   text="Theorem: for every number of clients, operation sequences and schedules, the MemFs history is linearizable w.r.t. the sequential MemFs model, and w.r.t. the reference model whenever the operations respect the preconditions in linearization order; corollaries: racing Creates of one name succeed exactly once, appends through distinct descriptors are both applied contiguously, descriptors handed out are distinct. Per run: every exported MemFs method is Lock(); defer Unlock(); body, helpers never touch the lock, the method set is the analysed one, no goroutines; DirFs methods are single system calls and stateless. Recorded concurrent histories of the real MemFs and DirFs are judged against the reference model by the extracted checker; -race runs and runtime fatal errors are reported.",
+   note="partial for DirFs (kernel atomicity of a system call trusted; List documented non-atomic; AtomicCreate atomic at rename, see C13); the sandbox has little real parallelism, so static obligations + race detector carry most detection.",
+   ref="DESIGN.md §5 C14"),
  "C15": dict(
    technique="Coq proof (generic little-endian put/get theorems by induction + lia) + per-run vm_compute obligations on regenerated function bodies + extracted-model differential run",
    text="Unbounded theorems in Coq about a model of encoding/binary's store/load sequences: frame, byte layout, Get∘Put, Put∘Get, refusal of short buffers, for every width, value and buffer. The model is tied to the code on every run by (R) regenerated function bodies of machine/prims.go checked by kernel-evaluated Examples and (C) a differential run of the real functions against the extracted model.",
